@@ -395,12 +395,30 @@ class Fill(CellModifierInput):
         )
 
     def push_to_cells(self):
+        def owner_number():
+            for cell in self._problem.cells:
+                if cell._fill is self:
+                    return cell.number
+            return None
+
         def get_universe(number):
-            return self._problem.universes[number]
+            try:
+                return self._problem.universes[number]
+            except KeyError:
+                raise BrokenObjectLinkError(
+                    "Cell", owner_number(), "Universe", number
+                )
 
         if self.in_cell_block:
             if self.old_transform_number:
-                self._transform = self._problem.transforms[self.old_transform_number]
+                try:
+                    self._transform = self._problem.transforms[
+                        self.old_transform_number
+                    ]
+                except KeyError:
+                    raise BrokenObjectLinkError(
+                        "Cell", owner_number(), "Transform", self.old_transform_number
+                    )
             if (
                 self.old_universe_number is not None
                 or self.old_universe_numbers is not None
